@@ -24,6 +24,7 @@ CONSTANTS
   Slots <- %(slots)s
   Tables <- %(tables)s
   CallUniverse <- %(calls)s
+  HostOf <- MCHostOf
   MaxCalls = %(nc)d
   MaxSets = %(ns)d
   MaxTicks = %(nt)d
